@@ -141,6 +141,12 @@ TARGETED = [
     (PROTO + "append(a->items, 2); [a->items, b->items, p->items]", "[[1, 2], [1, 2], [1, 2]]"),          # shared by reference
     (PROTO + "def c = <*_proto_ = a*>; c->count += 1; [c->count, a->count, p->count]", "[1, 0, 0]"),
     ("def m = <<<'k' => 1>>>; def n = m; n['k'] += 1; [m, n]", "[<<<'k' => 2>>>, <<<'k' => 2>>>]"),
+    ("def collect(x, acc = []) do append(acc, x); acc end; [collect(1), collect(2)]", "[[1], [2]]"),
+    ("def tally(k, m = <<<>>>) do m[k] = 1; m end; [tally('a'), tally('b')]", "[<<<'a' => 1>>>, <<<'b' => 1>>>]"),
+    ("def grow(s = <<>>, o = <**>, l = [0, 0]) do append(s, 1); o->n = 1; l[0] += 1; [s, o, l] end; grow(); grow()", "[<<1>>, <*n=1*>, [1, 0]]"),
+    ("def mk() fn(x, acc = [0]) do append(acc, x); acc end; def f = mk(); def g = mk(); [f(1), g(2), f(3)]", "[[0, 1], [0, 2], [0, 3]]"),
+    ("def l = [(x * 37) % 140 for x in range(140)]; def before = string(l); [median(l), median_low(l), median_high(l), mean(l), min(l), max(l), sum(l), sorted(l)[0]]; string(l) == before", "TRUE"),
+    ("def l = [(x * 37) % 70 for x in range(70)]; def keep = [l]; median(l); sorted(l); unique(l); reverse_list(l); keep[0] == [(x * 37) % 70 for x in range(70)]", "TRUE"),
     ("def l = [[1], [1]]; l[0][0] += 1; l", "[[2], [1]]"),
     ("def inner = [1]; def l = [inner, inner]; l[0][0] += 1; [l, inner]", "[[[2], [2]], [2]]"),
     ("def l = [1, 2]; def f(items...) do append(items..., 99); items... end; [f(...l), l]", "[[1, 2, 99], [1, 2]]"),
@@ -160,7 +166,8 @@ def run_probes(spec, ctx):
         return observe(lambda: it.interpret(src, "c16", env), BUDGET)
 
     for src, want in TARGETED:
-        o = ev(src)
+        env_ = ckl.functions.Environment()
+        o = observe(lambda: it.interpret(src, "c16", env_), 60000000)
         ctx.count("probe_evaluations")
         ctx.count("targeted_assignment_programs")
         ctx.case(("targeted", src))
